@@ -137,7 +137,7 @@ package web
 //@   requires[C10] wf: h != nil && stateInv(h) && h.oAuth2Config != nil && h.oidcTokenVerifier != nil && reqHasId(r) && sessionStore != nil
 //@   requires start: freshResponse() && !reqId(r).authenticated
 //@   assigns *
-//@   ensures[C13] gate: reqId(r).authenticated ==> #exchangeOK && #verifyOK && reqId(r).userName != "" && #httpErrors == old(#httpErrors)
+//@   ensures[C13] gate: reqId(r).authenticated ==> #exchangeOK && #verifyOK && reqId(r).userName != ""
 //@   site SaveSessionIdentity requires[C13] onlyVerified: #exchangeOK && #verifyOK && userName != "" && #httpErrors == 0 && reqId(r).userName == userName
 //@   site (*github.com/coreos/go-oidc/v3/oidc.IDTokenVerifier).Verify requires[C13] afterExchange: #exchangeOK && #httpErrors == 0
 //@   nopanic[C10]
